@@ -22,7 +22,8 @@ use crate::util;
 use crate::worker::{self, WorkerResult};
 use crate::world::{self, Verdict};
 
-pub const FAULTS: [&str; 17] = [
+pub const FAULTS: [&str; 18] = [
+    "failing-sublayout-next-to-valid-link:first",
     "tampered-layout",
     "no-keys",
     "wrong-key",
@@ -201,6 +202,15 @@ pub fn worker_case(case: &Value, dir: &Path) -> Value {
             world::write(&links, &world::link_file(name, k.d), &world::block_text(&world::sign_link(valid_link(name), &[k.d])));
             continue;
         }
+        if is("failing-sublayout-next-to-valid-link", "first") {
+            // functionary B hands in a valid link (the threshold of 1 is met by it); functionary A's
+            // evidence is a correctly signed sub-layout whose own step has no link: a failing sub-layout
+            let inner = world::layout(vec![world::step("in", 1, &[k.b])], vec![], &[k.b], world::far_future());
+            world::write(&links, &world::link_file(name, k.a), &world::block_text(&world::sign_layout(inner, &[k.a])));
+            std::fs::create_dir_all(links.join(format!("{name}.{}", k.a.prefix()))).unwrap();
+            world::write(&links, &world::link_file(name, k.b), &world::block_text(&world::sign_link(valid_link(name), &[k.b])));
+            continue;
+        }
         let mb = world::sign_link(valid_link(name), &[k.a]);
         if is("bad-signature-link", "first") || is("bad-signature-link", "last") {
             world::write(&links, &world::link_file(name, k.a), &tamper(&mb));
@@ -342,6 +352,9 @@ fn gen_cases(tier: Tier) -> Vec<Value> {
         if tier.thorough() {
             for (i, f) in menu.iter().enumerate() {
                 for g in menu.iter().skip(i + 1) {
+                    if !effective(shape, f) || !effective(shape, g) {
+                        continue;
+                    }
                     cases.push(json!({"shape": shape, "faults": [f, g], "cmd": "create", "rule": "none", "cmd_pos": 0}));
                 }
             }
@@ -350,13 +363,19 @@ fn gen_cases(tier: Tier) -> Vec<Value> {
     cases
 }
 
+/// In shape S3 the first step is the delegated one: link-level faults aimed at it are not injected
+/// (its evidence is the sub-layout; the inner faults express them), so they change nothing.
+fn effective(shape: &str, f: &str) -> bool {
+    !(shape == "S3" && f.ends_with(":first") && !f.starts_with("inner") && f != "step-rule-fail:first" && f != "threshold-unmet:first")
+}
+
 fn fault_class(f: &str) -> String {
     f.split(':').take(if f.starts_with("inner") { 2 } else { 1 }).collect::<Vec<_>>().join(":")
 }
 
 fn judge(acc: &mut Acc, case: &Value, out: &Value) {
-    let faults: Vec<String> = case["faults"].as_array().map(|a| a.iter().filter_map(|x| x.as_str().map(String::from)).collect()).unwrap_or_default();
     let shape = case["shape"].as_str().unwrap_or("");
+    let faults: Vec<String> = case["faults"].as_array().map(|a| a.iter().filter_map(|x| x.as_str().map(String::from)).filter(|f| effective(shape, f)).collect()).unwrap_or_default();
     let cmd = case["cmd"].as_str().unwrap_or("");
     let rule = case["rule"].as_str().unwrap_or("");
     let verdict = out["verdict"].as_str().unwrap_or("");
